@@ -725,12 +725,19 @@ impl HttpContext {
                         // header used by Envoy/HAProxy/most LBs. Preserve the
                         // client-supplied value verbatim — overwriting it
                         // breaks end-to-end request tracing.
-                        has_x_request_id = true;
-                        self.x_request_id = header
-                            .val
-                            .data_opt(buf)
-                            .and_then(|data| from_utf8(data).ok())
-                            .map(ToOwned::to_owned);
+                        if has_x_request_id {
+                            // Exactly one request id reaches the backend:
+                            // the first client-supplied one is the one
+                            // recorded and logged, later copies are dropped.
+                            header.elide();
+                        } else {
+                            has_x_request_id = true;
+                            self.x_request_id = header
+                                .val
+                                .data_opt(buf)
+                                .and_then(|data| from_utf8(data).ok())
+                                .map(ToOwned::to_owned);
+                        }
                     } else {
                         #[cfg(feature = "opentelemetry")]
                         if compare_no_case(key, b"traceparent") {
